@@ -178,6 +178,19 @@ def run_check(prop, tier, seed, workers):
         except Exception as e:  # noqa
             errors.append('sample replay: ' + f'{type(e).__name__}: {e}' + traceback.format_exc()[-800:])
 
+    # 2b. Engine K: Kani proof harnesses registered by the property (kernels the MIR engine's models rely on)
+    kani_results = []
+    kspec = getattr(mod, 'KANI', {}).get(tier, [])
+    if kspec:
+        from . import kani as kanidrv
+        kani_results, kprobs = kanidrv.run_all(kspec, timeout_s=getattr(mod, 'KANI_TIMEOUT', 900))
+        for kind, r in kprobs:
+            if kind == 'violation':
+                confirmed.append({'label': 'Kani harness ' + r['harness'] + ' failed', 'info': {'class': 'kani:' + r['harness'], 'failed_checks': r['failed_checks']},
+                                  'witness': None, 'replay': {'detail': {'kani_log': r['log'], 'failed_checks': r['failed_checks']}}, 'config': 'kani'})
+            else:
+                errors.append('kani harness ' + r['harness'] + ': ' + r['status'] + ' (expected ' + r['expected'] + ')')
+
     # 3. classify
     known = load_known(prop)
     known_hits, new_viol = [], []
@@ -205,8 +218,8 @@ def run_check(prop, tier, seed, workers):
         'distinct_nontrivial': nontrivial,
         'rule': getattr(mod, 'NONTRIVIAL_RULE', 'every completed path is a distinct sequence of solver-decided branch outcomes (distinct decision prefix) that reached the property assertion'),
         'samples': [_strip(s) for s in samples[:6]] or [{'note': 'no completed path'}],
-        'obligations': agg_stats['obligations'],
-        'discharged': agg_stats['discharged'],
+        'obligations': agg_stats['obligations'] + len(kani_results),
+        'discharged': agg_stats['discharged'] + sum(1 for r in kani_results if r['status'] == r['expected']),
         'solver_queries': agg_stats['queries'],
         'solver_seconds': round(agg_stats['solver_s'], 2),
         'paths_aborted_infeasible': agg_stats['aborted'],
@@ -222,6 +235,7 @@ def run_check(prop, tier, seed, workers):
         'mir_regenerated': regen, 'mir_dump_s': round(mir_s, 1),
         'explanation': getattr(mod, 'EXPLANATION', ''),
         'checker_cmd': f'./check {prop} --tier {tier}',
+        'kani': kani_results,
         'replay_mismatches': mismatch[:3],
         'panic_samples': panic_samples[:3],
         'errors': errors[:3],
